@@ -66,7 +66,7 @@ PROPS["C06"] = {
 PROPS["C13"] = {
     "pkgs": ["gbn", "mailbox"],
     "level": "exploration",
-    "quick_budget": 90, "thorough_budget": 1800,
+    "quick_budget": 120, "thorough_budget": 1800,
     "rule": "dead-peer: after a clean handshake and a little traffic both directions go silent forever at a tape-chosen millisecond (0..20 s), with 0..N+3 messages queued per side at that instant (idle, sending, window full, window full with a blocked Send), ping/pong pairs incl. 5s/7s/3s and pong>ping, static and adaptive resend timeouts; each endpoint must be closed, with all blocked and new calls failing, by t_silence + 3x(ping+pong) + 20x resend timeout + 5 s. idle-healthy: fault-free link with one-way latency up to pong/2, idle for up to 12 virtual hours (bounded to 2500 ping intervals) with occasional traffic, sometimes with transport write calls that return only after the packet (and its acknowledgement) travelled; never closed. mb-dead-peer: the full mailbox stack over the stub relay; on the first, second or third connection of a session the relay starts swallowing every message; both applications' calls must fail within 90 s. idle-resonant: idle-healthy on windows of 1-3 packets (the pings themselves fill the window), equal ping intervals, one-way latency a multiple of ping/8 and a pong timeout between the round trip and ping + round trip, so that ping ticks, pong expiries and packet arrivals share virtual instants and the tape orders them." + SIG_RULE,
     "assumptions": ["closure observed white-box (quit channel) plus blocked/new call results", "bound multipliers are generous; the defect class is unbounded non-detection"],
     "components": GBN_COMPONENTS,
